@@ -82,6 +82,25 @@ var ansiRe = regexp.MustCompile(`\x1b\[[0-9;]*m`)
 var taskMsgRe = regexp.MustCompile(`Task "(\w+)" (skipped|completed)`)
 var cmdFailRe = regexp.MustCompile(`Command "(.*)" in task "(\w+)" exited with status (\d+)`)
 
+// mentionsWord: w occurs in s delimited by non-word characters
+func mentionsWord(s, w string) bool {
+	if w == "" {
+		return false
+	}
+	for i := 0; ; {
+		j := strings.Index(s[i:], w)
+		if j < 0 {
+			return false
+		}
+		a, b := i+j, i+j+len(w)
+		isW := func(c byte) bool { return c == '_' || c >= '0' && c <= '9' || c >= 'a' && c <= 'z' || c >= 'A' && c <= 'Z' }
+		if (a == 0 || !isW(s[a-1])) && (b == len(s) || !isW(s[b])) {
+			return true
+		}
+		i = a + 1
+	}
+}
+
 type rpStats struct {
 	Cases       int            `json:"cases"`
 	Invocations int            `json:"invocations"`
@@ -340,6 +359,9 @@ func reportCmd(args []string) error {
 			if exit != 0 {
 				if m := cmdFailRe.FindStringSubmatch(stderr); m != nil {
 					errS = fmt.Sprintf("cmdfail:%s:%s", m[2], m[3])
+				} else if wf := strings.Split(wantFail, ":"); len(wf) == 3 && mentionsWord(stderr, wf[1]) && mentionsWord(stderr, wf[2]) {
+					// the wording of the message is not part of the property: naming the task and the status is
+					errS = wantFail
 				} else {
 					errS = "other"
 				}
@@ -382,8 +404,24 @@ func reportCmd(args []string) error {
 				}
 			default:
 				var ms []string
-				for _, m := range taskMsgRe.FindAllStringSubmatch(stdout, -1) {
-					ms = append(ms, m[1]+":"+m[2][:1])
+				if all := taskMsgRe.FindAllStringSubmatch(stdout, -1); len(all) > 0 {
+					for _, m := range all {
+						ms = append(ms, m[1]+":"+m[2][:1])
+					}
+				} else {
+					// other wording: one line per task naming it; "skip" somewhere in the line means skipped
+					for _, l := range strings.Split(stdout, "\n") {
+						for _, t := range ts {
+							if mentionsWord(l, rpNames[t.name]) {
+								k := "c"
+								if strings.Contains(strings.ToLower(l), "skip") {
+									k = "s"
+								}
+								ms = append(ms, rpNames[t.name]+":"+k)
+								break
+							}
+						}
+					}
 				}
 				outS = "msgs=" + strings.Join(ms, ",")
 			}
